@@ -17,7 +17,7 @@ func vrtBe64(b []byte) uint64 {
 // vrtAddr returns an arbitrary IPv4 or IPv6 address and its 16-byte form.
 func vrtAddr() (netip.Addr, [16]byte, bool) {
 	var a16 [16]byte
-	if vrtChoice(2) == 0 {
+	if vrtParam("v4only", 0) == 1 || vrtChoice(2) == 0 {
 		var a4 [4]byte
 		for i := range a4 {
 			a4[i] = vrtU8()
